@@ -791,13 +791,16 @@ func buildCase(r *rng, g *grule, ver int, nft bool, mc markCfg, flow, untracked,
 	feat := &environment.Features{}
 	var texts []string
 	var parsed []string
+	var nftText []string // nft cases: the same rules in the nftables text syntax (Nft.nrule)
 	for k := range out {
 		var txt string
 		var a string
 		var perr error
 		if nft {
 			txt = nftables.NewNFTRenderer("", uint8(ver)).Render("C", "", out[k], feat).Rule
-			a, perr = parseNft(txt, ver, names)
+			var nt string
+			a, nt, perr = parseNft(txt, ver, names)
+			nftText = append(nftText, nt)
 		} else {
 			txt = iptables.NewIptablesRenderer("").RenderAppend(&out[k], "C", "", feat)
 			a, perr = parseIptables(txt, ver, names)
@@ -1061,6 +1064,7 @@ emit:
 	coq := fmt.Sprintf("{| k_cfg := %s; k_ver := %s; k_rule := %s; k_sets := [%s]; k_impl := [%s]; k_impl_splits := %s; k_packets := %s; k_input_mutated := %v |}",
 		cfgCoq, vc, g.coq(), strings.Join(setsCoq, "; "), strings.Join(parsed, "; "), splitCoq,
 		coqList(pkts, func(p packet) string { return p.coq(ver) }), inputMutated)
+	coq = fmt.Sprintf("{| k2 := %s; k2_nft := [%s] |}", coq, strings.Join(nftText, "; "))
 	coq = "(" + strings.ReplaceAll(coq, "%N", "") + ")%N"
 
 	nb := posBlocks(g, ver, splits)
